@@ -882,7 +882,7 @@ func (d *Ledger) actNFTTransfer() {
 	} else {
 		from, tok, nonce, have = d.anyAcct(), d.anyTok(), uint64(d.R.Intn(3)), 0
 	}
-	if d.chance(8) {
+	if d.chance(8) || (nonce >= 256 && d.chance(25)) {
 		// name the same storage key through an aliasing (token, nonce) split
 		tok, nonce = d.aliasSplit(tok, nonce)
 	}
@@ -904,6 +904,11 @@ func (d *Ledger) aliasSplit(tok []byte, nonce uint64) ([]byte, uint64) {
 		return tok, nonce
 	}
 	cut := d.R.Intn(len(key) + 1)
+	if nbs := nb(nonce); len(nbs) >= 2 && d.chance(60) {
+		// a nonce of two or more bytes: split INSIDE the nonce (token id || leading nonce bytes, remaining bytes as the nonce);
+		// the stored entry then carries another nonce than the one the call names
+		cut = len(tok) + 1 + d.R.Intn(len(nbs)-1)
+	}
 	rest := key[cut:]
 	if len(rest) > 7 || (len(rest) > 0 && rest[0] == 0) {
 		return tok, nonce
@@ -1020,7 +1025,7 @@ func (d *Ledger) actMulti() {
 		if len(mine) > 0 && !d.chance(12) {
 			h := mine[d.R.Intn(len(mine))]
 			tok, nonce := h.tok, h.nonce
-			if d.chance(14) {
+			if d.chance(14) || (nonce >= 256 && d.chance(25)) {
 				tok, nonce = d.aliasSplit(tok, nonce)
 			}
 			args = append(args, tok, nb(nonce), d.amt(d.someAmount(d.q(h.val))))
@@ -1211,8 +1216,11 @@ func (d *Ledger) actCreate() {
 	if d.chance(10) || (d.Profile == "gas" && d.chance(25)) {
 		qty = []int64{255, 256, 257, 300, 65535}[d.R.Intn(5)]
 	}
-	roy := []uint64{0, 10000, 10001, 2500, 1<<32 + 1, 7}[d.R.Intn(6)]
-	args := [][]byte{tok, d.amt(qty), metaNames[d.R.Intn(3)], nb(roy), metaHashes[d.R.Intn(4)], metaAttrs[d.R.Intn(4)]}
+	// royalties: the boundaries, values that only fit after narrowing to 32 bits, and numbers wider than 64 bits whose low bits are
+	// below / above the bound (whatever the narrowing rule is, what gets STORED must not exceed 10000), zero-padded encodings
+	roy := [][]byte{nb(0), nb(10000), nb(10001), nb(2500), nb(1<<32 + 1), nb(7), nb(1<<32 + 10001), {0, 0, 0x27, 0x10},
+		{1, 0, 0, 0, 0, 0, 0, 0, 5}, {1, 0, 0, 0, 0, 0, 0, 0x27, 0x11}, {1, 0, 0, 0, 0, 0, 0, 0, 0xff, 0xff}, {0x27, 0x11, 0, 0, 0, 0, 0, 0, 0, 1}}[d.R.Intn(12)]
+	args := [][]byte{tok, d.amt(qty), metaNames[d.R.Intn(3)], roy, metaHashes[d.R.Intn(4)], metaAttrs[d.R.Intn(4)]}
 	for i := d.R.Intn(3) + 1; i > 0; i-- {
 		args = append(args, metaURIs[d.R.Intn(4)])
 	}
@@ -1340,6 +1348,14 @@ func (d *Ledger) actFreeze() {
 	}
 	if d.chance(10) {
 		tok = d.pickTok(d.NFT)
+	}
+	if hs := d.nftHoldings(); len(hs) > 0 && d.chance(12) {
+		// the system contract freezes ONE NFT / SFT holding: the key argument is token id || nonce bytes; the entry keeps its metadata
+		h := hs[d.R.Intn(len(hs))]
+		a, tok = h.acct, append(append([]byte{}, h.tok...), nb(h.nonce)...)
+		if fn == "ESDTWipe" {
+			fn = "ESDTFreeze"
+		}
 	}
 	if fa, ft, ok := d.frozenEntry(); ok && fn == "ESDTUnFreeze" && d.chance(60) {
 		a, tok = fa, ft // un-freeze somebody who is frozen (the cleared flag bytes stay in the entry)
